@@ -100,7 +100,7 @@ func runC10(x *mc.X) {
 	hi := x.Choose("history", len(c10Hists))
 	hist := c10Hists[hi]
 	x.Trace[len(x.Trace)-1].Desc = hist.name
-	logger := mc.Pick(x, "logger", []string{"", "text", "json"})
+	logger := mc.Pick(x, "logger", []string{"", "text", "json", "text-info"})
 
 	var recorded []int // fault decisions of this run: the key under which the logging-off observations are kept
 	obsA, faults := c10Run(x, hist, logger, nil, &recorded)
